@@ -70,10 +70,42 @@ let show (r : BinNums.coq_N list Json.value Prelude.outcome) : string =
   | Prelude.Err e -> "err " ^ errclass e
   | Prelude.Crash w -> "CRASH" ^ string_of_int (int_of_n w)
 
+(* the grammar accepted by Rust's <f64 as FromStr>::from_str (used only by the model of the tree BEFORE fix F22) *)
+let rust_float_ok (s : string) : bool =
+  let n = Stdlib.String.length s in
+  let is_digit c = c >= '0' && c <= '9' in
+  let i = ref 0 in
+  if !i < n && (s.[!i] = '+' || s.[!i] = '-') then incr i;
+  let rest = Stdlib.String.lowercase_ascii (Stdlib.String.sub s !i (n - !i)) in
+  if rest = "inf" || rest = "infinity" || rest = "nan" then true
+  else begin
+    let d1 = ref 0 in
+    while !i < n && is_digit s.[!i] do incr i; incr d1 done;
+    let d2 = ref 0 in
+    if !i < n && s.[!i] = '.' then begin
+      incr i;
+      while !i < n && is_digit s.[!i] do incr i; incr d2 done
+    end;
+    if !d1 + !d2 = 0 then false
+    else begin
+      if !i < n && (s.[!i] = 'e' || s.[!i] = 'E') then begin
+        incr i;
+        if !i < n && (s.[!i] = '+' || s.[!i] = '-') then incr i;
+        let d3 = ref 0 in
+        while !i < n && is_digit s.[!i] do incr i; incr d3 done;
+        if !d3 = 0 then i := n + 1
+      end;
+      !i = n
+    end
+  end
+
+let fparse_legacy (l : BinNums.coq_N list) : BinNums.coq_N list option =
+  if Stdlib.List.for_all (fun c -> int_of_n c < 128) l && rust_float_ok (ascii_of_str l) then Some l else None
+
 let () =
   register "jparse" (function [t] -> show (Json.xparse Json.xmax_depth (str_of_hex t)) | _ -> "BADARGS");
   register "jparsed" (function [d; t] -> show (Json.xparse (n_of_int (int_of_string d)) (str_of_hex t)) | _ -> "BADARGS");
-  register "jparse_old" (function [t] -> show (Json.xparse_legacy Json.xmax_depth (str_of_hex t)) | _ -> "BADARGS");
+  register "jparse_old" (function [t] -> show (Json.parse_max_depth fparse_legacy true Json.xmax_depth (str_of_hex t)) | _ -> "BADARGS");
   register "jser" (function [ind; v] ->
     let pos = ref 0 in
     let v = undump v pos in
